@@ -196,6 +196,43 @@ func vpH_C08_dict() {
 		pl, err := d.PostingsList([]byte(t), nil, nil)
 		vpAssert(err == nil && pl != nil && pl.Count() == n, "PostingsList.Count agrees with the model")
 	}
+	// two live iterators of the same Dictionary used alternately: a full
+	// enumeration is started, the range/automaton enumeration runs in between,
+	// then the first one is finished
+	{
+		all := append([]string(nil), exp.terms["f"]...)
+		sort.Strings(all)
+		full := d.Iterator(nil, nil, nil)
+		var seen []string
+		if e, err := full.Next(); err == nil && e != nil {
+			seen = append(seen, e.Term())
+		}
+		other := d.Iterator(aut, r.start, r.end)
+		n := 0
+		for {
+			e, err := other.Next()
+			vpMust(err, "DictionaryIterator.Next")
+			if e == nil || n > 32 {
+				break
+			}
+			n++
+		}
+		vpAssert(n == len(want), "a second live iterator of the dictionary enumerates its own range")
+		for {
+			e, err := full.Next()
+			vpMust(err, "DictionaryIterator.Next")
+			if e == nil || len(seen) > 32 {
+				break
+			}
+			seen = append(seen, e.Term())
+		}
+		vpAssert(len(seen) == len(all), "the first live iterator still enumerates every term")
+		if len(seen) == len(all) {
+			for i := range seen {
+				vpAssert(seen[i] == all[i], "the first live iterator still enumerates every term in order")
+			}
+		}
+	}
 	// unknown field / absent term looked up with a recycled list (one that served
 	// a general term): still an empty list with an empty iterator
 	for _, probe := range []segment.Dictionary{ud, d} {
